@@ -71,6 +71,65 @@ def recognised_guard(ev, hk, xv, xend):
     return None
 
 
+class RemainderMon(mon.Monitor):
+    """state: the step in flight was clipped to `xend - x` by a landing test without stretch and has not been used yet"""
+    init = (False,)
+
+    def __init__(self, fn, clips, ode_def):
+        super().__init__()
+        self.fn, self.clips, self.ode_def = fn, clips, ode_def
+
+    def step(self, st, ev):
+        kind, n = ev[0], ev[1]
+        if kind == "node":
+            if any(n is c for c in self.clips):
+                return (True,)
+            if n.get("k") == "MethodCall" and n.get("def") == self.ode_def:
+                return (False,)
+            if tast.is_field_write(n, "Steps::rejected") or tast.is_field_write(n, "Steps::accepted"):
+                return (False,)      # the clipped step was tried (factorisation / iteration failed): what follows is a new step
+        if st and kind == "then" and n.get("k") == "If" and tast.contains(n["then"], lambda z: z.get("k") == "Path" and z.get("def") == "status::Status::StepSizeTooSmall"):
+            self.violate("R-LAND-REMAINDER:%s" % self.fn, "a step clipped to the remaining distance xend - x can be rejected by the step-size underflow test `%s` before it is used"
+                         % tast.render(n["cond"])[:70], n, self.cur_trail)
+        return (st,)
+
+
+def r_land_remainder(rep, f):
+    """when max_step (or the controller) makes the steps add up to the interval, the last unclipped step ends a few ulps
+    short of xend and the landing test clips the next step to that remainder - a step of rounding size. A solver may take
+    that step, or avoid it by stretching the landing test (x + s*h >= xend with s > 1 absorbs any remainder below
+    (s-1)*h into the previous step); what it must not do is run the clipped step into its step-size underflow exit: the
+    interval is covered to rounding but the run ends with StepSizeTooSmall."""
+    ODE_ = "ivp::IVP::ode"
+    for mod, ty in SOLVERS:
+        fn = solve_fn(mod, ty)
+        body = f.body(fn)
+        key = "R-LAND-REMAINDER:%s" % fn
+        # clipping assignments  <step> = xend - x   whose landing test has no stretch factor
+        clips, stretched = [], 0
+        for a_, parents in tast.find_with_parents(body["body"], lambda z: z.get("k") == "Assign" and z["r"].get("k") == "Binary" and z["r"]["op"] == "Sub"
+                                                  and z["r"]["l"].get("k") == "Path" and z["r"]["l"].get("name") == "xend" and z["r"]["r"].get("k") == "Path"):
+            guard = next((p_ for p_ in reversed(parents) if p_.get("k") == "If" and tast.contains(p_["then"], lambda z: z is a_)), None)
+            lits = [float(str(q["v"]).replace("_", "")) for q in tast.find(guard["cond"], lambda z: z.get("k") == "Lit" and z.get("lk") == "Float")] if guard else []
+            if any(v > 1.0 for v in lits):
+                stretched += 1
+            else:
+                clips.append(a_)
+        if not clips and not stretched:
+            rep.ok("R-LAND-REMAINDER", key, "no clipping assignment of the form h = xend - x", nontrivial=False)
+            continue
+        if not clips:
+            rep.ok("R-LAND-REMAINDER", key, "%d landing test(s), all with a stretch factor > 1: a rounding-size remainder is absorbed by the previous step" % stretched)
+            continue
+        m = RemainderMon(fn, clips, ODE_)
+        mon.Runner(m).run_fn(body)
+        if m.violations:
+            k_, msg, node, trail = m.violations[0]
+            rep.violation("R-LAND-REMAINDER", key, msg + "; with max_step dividing the interval the run ends with StepSizeTooSmall a few ulps before xend", node.get("sp") if isinstance(node, dict) else None)
+        else:
+            rep.ok("R-LAND-REMAINDER", key, "%d unstretched clip(s): no step-size underflow exit between the clip and the stage evaluations of the clipped step" % len(clips))
+
+
 def r_land_exact(rep, f):
     """a solver that decides completion by comparing its abscissa with xend must put x ON xend when it clips the last step:
     `x + (xend - x)` (or x + |xend - x|*direction) is a rounded sum that can land one ulp short; the comparison then fails,
